@@ -1,5 +1,6 @@
 import WaVerif.Base.Proto
 import WaVerif.Model.C21
+import WaVerif.Gen.C21Filter
 open WaVerif WaVerif.Proto WaVerif.C21
 
 /-! Line protocol (same ops as harness/c21):
@@ -47,6 +48,12 @@ abbrev St := List (String × List Nat)
 def lookup (st : St) (uri : String) : List Nat := (st.lookup uri).getD []
 def store (st : St) (uri : String) (v : List Nat) : St := (uri, v) :: st.filter (·.1 ≠ uri)
 
+/-- the URI filter of `DidChange`, regenerated from /repo (Gen/C21Filter.lean) -/
+def passesFilter (uri : String) : Bool :=
+  match WaVerif.C21.Gen.didChangeSuffixes with
+  | none => true
+  | some sufs => sufs.any (fun s => uri.endsWith s)
+
 def optIdx : Option Nat → String
   | some i => toString i
   | none => "none"
@@ -72,7 +79,7 @@ def step (st : St) (line : String) : St × String :=
   | ["change", uri, cs] =>
     match parseChanges cs with
     | some cs =>
-      let (t, e) := didChange (uri.endsWith ".wa") (lookup st uri) cs
+      let (t, e) := didChange (passesFilter uri) (lookup st uri) cs
       let st' := store st uri t
       (st', (match e with | none => "ok" | some e => "err " ++ aerr e) ++ " " ++ toHex t)
     | none => (st, "bad-op")
